@@ -16,6 +16,18 @@ var ExtraNilness func(v ssa.Value) (known, isNil bool)
 // NilFacts maps SSA values (and local Alloc cells) to a known nilness: true = nil.
 type NilFacts map[ssa.Value]bool
 
+// contentOf is the fact key for "the value currently held in cell/global X" (as opposed to
+// the address X itself).
+type contentOf struct{ ssa.Value }
+
+func (c contentOf) Name() string { return "*" + c.Value.Name() }
+
+// CellFact returns the known nilness of the content of a local cell or global.
+func (f NilFacts) CellFact(cell ssa.Value) (isNil, known bool) {
+	n, ok := f[contentOf{cell}]
+	return n, ok
+}
+
 func (f NilFacts) clone() NilFacts {
 	g := make(NilFacts, len(f)+2)
 	for k, v := range f {
@@ -154,17 +166,22 @@ func nilWalk(fn *ssa.Function, from map[Edge]bool, after ssa.Instruction, cut ma
 		pred  *ssa.BasicBlock
 		f     NilFacts
 		start int
-		last  map[*ssa.Alloc]ssa.Value // per path: value most recently stored into each tracked cell
+		last  map[ssa.Value]ssa.Value // per path: value most recently stored into each tracked cell
 	}
-	cloneLast := func(m map[*ssa.Alloc]ssa.Value) map[*ssa.Alloc]ssa.Value {
-		n := make(map[*ssa.Alloc]ssa.Value, len(m))
+	cloneLast := func(m map[ssa.Value]ssa.Value) map[ssa.Value]ssa.Value {
+		n := make(map[ssa.Value]ssa.Value, len(m))
 		for k, v := range m {
 			n[k] = v
 		}
 		return n
 	}
 	cellOK := map[*ssa.Alloc]bool{}
-	isCell := func(v ssa.Value) (*ssa.Alloc, bool) {
+	isCell := func(v ssa.Value) (ssa.Value, bool) {
+		if g, ok := v.(*ssa.Global); ok {
+			// package-level variable: tracked between two reads inside one function (assumed
+			// not to be reassigned concurrently: configuration set once at start-up)
+			return g, true
+		}
 		a, ok := v.(*ssa.Alloc)
 		if !ok {
 			return nil, false
@@ -182,14 +199,14 @@ func nilWalk(fn *ssa.Function, from map[Edge]bool, after ssa.Instruction, cut ma
 		b := after.Block()
 		for i, in := range b.Instrs {
 			if in == after {
-				work = append(work, item{b, nil, NilFacts{}, i + 1, map[*ssa.Alloc]ssa.Value{}})
+				work = append(work, item{b, nil, NilFacts{}, i + 1, map[ssa.Value]ssa.Value{}})
 			}
 		}
 	} else if from == nil {
 		if len(fn.Blocks) == 0 {
 			return res
 		}
-		work = append(work, item{fn.Blocks[0], nil, NilFacts{}, 0, map[*ssa.Alloc]ssa.Value{}})
+		work = append(work, item{fn.Blocks[0], nil, NilFacts{}, 0, map[ssa.Value]ssa.Value{}})
 	} else {
 		for e := range from {
 			if cut[e] {
@@ -198,7 +215,7 @@ func nilWalk(fn *ssa.Function, from map[Edge]bool, after ssa.Instruction, cut ma
 			f := NilFacts{}
 			// facts implied by the start edge itself
 			applyEdgeFact(e, f, isCell, nil)
-			work = append(work, item{e.From.Succs[e.Idx], e.From, f, 0, map[*ssa.Alloc]ssa.Value{}})
+			work = append(work, item{e.From.Succs[e.Idx], e.From, f, 0, map[ssa.Value]ssa.Value{}})
 		}
 	}
 	const maxStates = 200000
@@ -290,16 +307,16 @@ func nilWalk(fn *ssa.Function, from map[Edge]bool, after ssa.Instruction, cut ma
 			case *ssa.Store:
 				if a, ok := isCell(x.Addr); ok {
 					if k, n := Nilness(x.Val, f); k {
-						f[a] = n
+						f[contentOf{a}] = n
 					} else {
-						delete(f, a)
+						delete(f, contentOf{a})
 					}
 					lastStored[a] = x.Val
 				}
 			case *ssa.UnOp:
 				if x.Op == token.MUL {
 					if a, ok := isCell(x.X); ok {
-						if n, k := f[a]; k {
+						if n, k := f[contentOf{a}]; k {
 							f[x] = n
 						}
 					}
@@ -353,7 +370,7 @@ func nilWalk(fn *ssa.Function, from map[Edge]bool, after ssa.Instruction, cut ma
 }
 
 // applyEdgeFact records what taking edge e (of an If on a nil test) implies.
-func applyEdgeFact(e Edge, f NilFacts, isCell func(ssa.Value) (*ssa.Alloc, bool), last map[*ssa.Alloc]ssa.Value) {
+func applyEdgeFact(e Edge, f NilFacts, isCell func(ssa.Value) (ssa.Value, bool), last map[ssa.Value]ssa.Value) {
 	if len(e.From.Instrs) == 0 {
 		return
 	}
@@ -377,7 +394,7 @@ func applyEdgeFact(e Edge, f NilFacts, isCell func(ssa.Value) (*ssa.Alloc, bool)
 	f[v] = isNil
 	if u, ok := v.(*ssa.UnOp); ok && u.Op == token.MUL {
 		if c, ok := isCell(u.X); ok {
-			f[c] = isNil
+			f[contentOf{c}] = isNil
 			if sv, ok := last[c]; ok {
 				f[sv] = isNil
 			}
